@@ -178,4 +178,7 @@ var propPartial = &ev.Prop[PartialCase]{Sub: "partial", Quick: 4000, Thorough: 2
 
 func TestRegress(t *testing.T)     { propZero.Regress(t); propPartial.Regress(t) }
 func TestReplay(t *testing.T)      { _ = propZero.Replay(t) || propPartial.Replay(t) }
-func TestPropPartial(t *testing.T) { propPartial.Run(t) }
+func TestPropPartial(t *testing.T) {
+	ev.R().Floor("partial:value-with-error", 1000)
+	propPartial.Run(t)
+}
